@@ -685,6 +685,8 @@ impl NamingActor {
 
     pub fn time_check(&mut self) {
         let current_time = Local::now().timestamp_millis();
+        #[cfg(rnacos_verif)]
+        let current_time = crate::verif_hooks::clock::get().unwrap_or(current_time);
         let healthy_time = current_time - self.sys_config.instance_health_timeout_millis;
         let offline_time = current_time - self.sys_config.instance_timeout_millis;
         let mut size = 0;
@@ -1400,6 +1402,17 @@ impl NamingActor {
             }
         }
         Ok(())
+    }
+}
+
+#[cfg(rnacos_verif)]
+impl NamingActor {
+    /// the body of the 2 s driver (`instance_time_out_heartbeat`) that has no NamingCmd
+    pub fn verif_clear_empty_service(&mut self) {
+        self.clear_empty_service();
+    }
+    pub fn verif_clear_timeout_instance_metadata(&mut self) {
+        self.clear_timeout_instance_metadata();
     }
 }
 
